@@ -519,7 +519,8 @@ def rule_pub(c: Ctx) -> RuleResult:
 
 
 def rule_ctxmgr(c: Ctx) -> RuleResult:
-    r = RuleResult("CTXMGR", "every @contextmanager runs its post-yield code on the exceptional exit too")
+    r = RuleResult("CTXMGR", "every @contextmanager runs its post-yield code on the exceptional exit too; a class-based context manager's "
+                             "__exit__ never returns a truthy value")
     n = 0
     for f in c.p.all_funcs():
         if not any(d.split(".")[-1] == "contextmanager" for d in f.decorators):
@@ -555,6 +556,22 @@ def rule_ctxmgr(c: Ctx) -> RuleResult:
                 r.add(key, c.where(f, node.ast), f.short, "yield", "discharged",
                       "every effectful statement reachable after the yield is also reachable on the exceptional edge "
                       "(try/finally or equivalent)" if after_normal else "nothing to restore after the yield")
+    # context managers written as classes: __exit__ runs on both exits by protocol; what is left to check is that it does not
+    # swallow the exception of the with-body - every return of __exit__ is a bare return / None / False
+    for f in c.p.all_funcs():
+        if f.name != "__exit__" or f.cls is None:
+            continue
+        n += 1
+        rets = [x for x in own_nodes(f.node) if isinstance(x, ast.Return)]
+        bad = [x for x in rets if x.value is not None and not (isinstance(x.value, ast.Constant) and x.value.value in (None, False))]
+        key = f"{f.short}|exit-result"
+        if bad:
+            r.add(key, c.where(f, bad[0]), f.short, U(bad[0])[:70], "violation",
+                  "__exit__ returns a value that can be truthy: the exception raised inside the with-body is swallowed instead of "
+                  "propagating to the caller")
+        else:
+            r.add(key, c.where(f, f.node), f.short, "def __exit__", "discharged",
+                  "__exit__ returns None / False on every path: an exception of the with-body propagates")
     r.functions = n
     r.floor = 1
     return r
